@@ -136,7 +136,7 @@ func VerifyFunc(prog *Program, pk *Pkg, fc *FuncContract, tier string) (rep *Fun
 	sig := obj.Type().(*types.Signature)
 	c.scanBoxed(fd.Body)
 
-	st := &State{vars: map[types.Object]Val{}, heaps: map[string]Term{}, ghosts: map[string]Val{}, pc: TTrue}
+	st := &State{vars: map[types.Object]Val{}, heaps: map[string]Term{}, ghosts: map[string]Val{"$panic": Scalar{TFalse, tBool}}, pc: TTrue}
 	st.alloc = c.declare("alloc0", SInt)
 	c.allocEntry = st.alloc
 	c.axiom(app(SBool, "<=", Term{"0", SInt}, st.alloc))
@@ -215,6 +215,12 @@ func VerifyFunc(prog *Program, pk *Pkg, fc *FuncContract, tier string) (rep *Fun
 	// body
 	out := c.execBlock(st, fd.Body.List)
 	end := c.finishFrame(out.normal, fd.Body.End())
+	if end != nil && !end.dead() {
+		if pf := c.panicFlag(end); pf.S != "false" {
+			c.oblige(end, "panic", "escapes", fd.Pos(), Not(pf), "a panic raised by a callee must not escape the function")
+			end.assume(c, Not(pf))
+		}
+	}
 	if end != nil && !end.dead() {
 		c.cover(end, "exit-reachable", fd.Body.End())
 		c.checkEnsures(end, entry, fc, sig, fd)
